@@ -1,537 +1,296 @@
 // C15 — subprocess I/O is complete and deadlock-free for any payload and child timing.
-// E-PROC: run_process / Subprocess::communicate really fork and exec a scripted helper child
-// (harness/C15_child.c) that performs one step per command; the parent's waitpid, poll, read,
-// write, kill, gettimeofday, fork, pipe and close are interposed at link time (-Wl,--wrap).  At
-// each of the parent's waitpid/poll/read/write calls the explorer chooses how many child steps
-// run first (default 0: the child moves only when the parent would otherwise idle); every choice
-// sequence with at most `bound` non-default answers is executed (engine/env.hh).  Time is virtual.
-#include <dirent.h>
-#include <errno.h>
-#include <fcntl.h>
-#include <poll.h>
-#include <signal.h>
-#include <string.h>
-#include <sys/time.h>
-#include <sys/wait.h>
-#include <unistd.h>
-
-#include <set>
-#include <string>
-#include <vector>
-
-#include "Process.hh"
-#include "env.hh"
-#include "vf.hh"
-
-using namespace phosg;
-
-extern "C" {
-pid_t __real_waitpid(pid_t, int*, int);
-int __real_poll(struct pollfd*, nfds_t, int);
-ssize_t __real_read(int, void*, size_t);
-ssize_t __real_write(int, const void*, size_t);
-int __real_kill(pid_t, int);
-int __real_gettimeofday(struct timeval*, void*);
-pid_t __real_fork(void);
-int __real_pipe(int*);
-int __real_close(int);
-}
+// E-PROC: run_process / Subprocess::communicate / the Subprocess life cycle really fork and exec a scripted helper
+// child (harness/C15_child.c) that performs one step per command; the parent's waitpid, poll, read, write, kill,
+// gettimeofday, fork, pipe and close are interposed at link time (-Wl,--wrap), see C15_proc.hh.  Environment answers
+// (choice points of the explorer):
+//   * at each of the parent's waitpid/poll/read/write calls: how many child steps run first (default 0: the child
+//     moves only when the parent would otherwise idle; alternatives 1, 2, all);
+//   * wherever the parent would sleep (blocking waitpid with a live child, poll with a non-zero timeout and nothing
+//     ready) and at every non-blocking read/write of run_process (which names EINTR explicitly): the call is
+//     interrupted by a signal and fails with EINTR (default: no signal; at most 2 per call).
+// Every choice sequence with at most `bound` non-default answers is executed (C15_explore.hh).  Time is virtual.
+// One scenario is a HISTORY of one to five calls made in the same process, each with its own scripted child.
+#include "C15_proc.hh"
+#include "C15_explore.hh"
+#include "C15_oracle.hh"
 
 namespace {
 
-constexpr int CMD_FD = 200, ACK_FD = 201;
-
-struct ProcAbort { std::string why; };
-[[noreturn]] void do_abort(const std::string& why);
-
-enum StepKind { ST_R, ST_RALL, ST_W1, ST_W2, ST_C, ST_X, ST_K, ST_Z };
-struct Step { StepKind k; int64_t arg; };
-
-struct Cmd { int32_t op; int32_t arg; };
-struct Ack { int64_t result; uint64_t hash; int64_t total; };
-
-struct Proc {
-  bool active = false;
-  pid_t pid = -1;
-  bool alive = false;          // forked and not yet terminated
-  std::set<int> owned;         // pipe descriptors created by the code under test
-  int cmd_w = -1, ack_r = -1;
-  std::vector<Step> script;
-  size_t pc = 0;
-  int64_t w_remaining = -1;
-  int64_t in_total = 0;
-  uint64_t in_hash = 1469598103934665603ull;
-  bool in_eof = false;
-  int64_t out_total[3] = {0, 0, 0};
-  uint64_t vclock = 0;          // virtual microseconds elapsed
-  struct timeval base {};
-  size_t syscalls = 0;
-  size_t child_steps = 0;
-  int polls_without_child_progress = 0;
-  bool killed_by_parent = false;
-  int kill_signal = 0;
-} P;
-
-vfe::Env g_env;
-
-[[noreturn]] void do_abort(const std::string& why) {
-  P.active = false;  // everything after this point (including destructors during unwinding) uses the real calls
-  throw ProcAbort{why};
-}
-
-void wait_waitable() {
-  siginfo_t info;
-  memset(&info, 0, sizeof(info));
-  while (waitid(P_PID, P.pid, &info, WEXITED | WNOWAIT) < 0 && errno == EINTR) {}
-  P.alive = false;
-}
-
-Ack command(int op, int arg) {
-  Cmd c{op, arg};
-  if (__real_write(P.cmd_w, &c, sizeof(c)) != (ssize_t)sizeof(c)) do_abort("ENGINE: cannot send a command to the helper child");
-  Ack a{};
-  size_t got = 0;
-  while (got < sizeof(a)) {
-    ssize_t r = __real_read(P.ack_r, (char*)&a + got, sizeof(a) - got);
-    if (r < 0 && errno == EINTR) continue;
-    if (r <= 0) do_abort("ENGINE: helper child closed the acknowledgement pipe (did it exec?)");
-    got += r;
-  }
-  return a;
-}
-
-// Performs the child's next scripted step if it can make progress.  Returns false when the child
-// is blocked (no data to read / no room to write), idle forever (Z), finished or dead.
-bool child_step() {
-  if (!P.alive || P.pc >= P.script.size()) return false;
-  Step& s = P.script[P.pc];
-  switch (s.k) {
-    case ST_R:
-    case ST_RALL: {
-      Ack a = command('R', s.k == ST_R ? (int)s.arg : 65536);
-      if (a.result == -1) return false;
-      if (a.result < 0) do_abort("ENGINE: helper child read error");
-      P.in_total = a.total;
-      P.in_hash = a.hash;
-      if (a.result == 0) { P.in_eof = true; P.pc++; }
-      else if (s.k == ST_R) P.pc++;
-      break;
-    }
-    case ST_W1:
-    case ST_W2: {
-      int st = s.k == ST_W1 ? 1 : 2;
-      if (P.w_remaining < 0) P.w_remaining = s.arg;
-      if (P.w_remaining == 0) { P.w_remaining = -1; P.pc++; break; }
-      Ack a = command('0' + st, (int)std::min<int64_t>(P.w_remaining, 65536));
-      if (a.result == -1) return false;
-      if (a.result == -2) { P.w_remaining = -1; P.pc++; break; }  // reader gone: the child gives up on this write
-      P.out_total[st] = a.total;
-      P.w_remaining -= a.result;
-      if (P.w_remaining == 0) { P.w_remaining = -1; P.pc++; }
-      break;
-    }
-    case ST_C: command('C', (int)s.arg); P.pc++; break;
-    case ST_X: command('X', (int)s.arg); wait_waitable(); P.pc++; break;
-    case ST_K: command('K', (int)s.arg); wait_waitable(); P.pc++; break;
-    case ST_Z: return false;
-  }
-  P.child_steps++;
-  P.polls_without_child_progress = 0;
-  return true;
-}
-
-bool owned_fd(int fd) { return P.active && P.owned.count(fd); }
-
-// Choice point in front of one of the parent's system calls: let the child run ahead.
-void pre_syscall() {
-  if (++P.syscalls > 6000) do_abort("livelock: more than 6000 system calls by the parent in one call");
-  bool can = P.alive && P.pc < P.script.size() && P.script[P.pc].k != ST_Z;
-  int c = g_env.choose(can ? 4 : 1);
-  int k = c == 3 ? 1000000 : c;
-  for (int i = 0; i < k; i++) if (!child_step()) break;
-}
-
-bool is_blocking(int fd) {
-  int fl = fcntl(fd, F_GETFL, 0);
-  return fl >= 0 && !(fl & O_NONBLOCK);
-}
-void set_nb(int fd, bool nb) {
-  int fl = fcntl(fd, F_GETFL, 0);
-  if (fl >= 0) fcntl(fd, F_SETFL, nb ? (fl | O_NONBLOCK) : (fl & ~O_NONBLOCK));
-}
-
-}  // namespace
-
-extern "C" pid_t __wrap_fork(void) {
-  pid_t p = __real_fork();
-  if (P.active && p > 0) { P.pid = p; P.alive = true; }
-  if (p == 0) P.active = false;  // in the child: plain system calls until exec
-  return p;
-}
-
-extern "C" int __wrap_pipe(int* fds) {
-  int r = __real_pipe(fds);
-  if (P.active && r == 0) { P.owned.insert(fds[0]); P.owned.insert(fds[1]); }
-  return r;
-}
-
-extern "C" int __wrap_close(int fd) {
-  if (P.active) P.owned.erase(fd);
-  return __real_close(fd);
-}
-
-extern "C" int __wrap_gettimeofday(struct timeval* tv, void* tz) {
-  if (!P.active) return __real_gettimeofday(tv, tz);
-  if (++P.syscalls > 6000) do_abort("livelock: more than 6000 system calls by the parent in one call");
-  uint64_t t = (uint64_t)P.base.tv_sec * 1000000 + P.base.tv_usec + P.vclock;
-  tv->tv_sec = t / 1000000;
-  tv->tv_usec = t % 1000000;
-  return 0;
-}
-
-extern "C" pid_t __wrap_waitpid(pid_t pid, int* status, int flags) {
-  if (!P.active || pid != P.pid) return __real_waitpid(pid, status, flags);
-  pre_syscall();
-  if (!(flags & WNOHANG)) {
-    // blocking wait: the parent sleeps until the child terminates, so the child runs on its own
-    while (P.alive) {
-      if (!child_step()) do_abort("deadlock: the parent blocks in waitpid() while the child is blocked (" + std::string(P.pc < P.script.size() && (P.script[P.pc].k == ST_W1 || P.script[P.pc].k == ST_W2) ? "writing to a full pipe nobody reads" : P.pc < P.script.size() && P.script[P.pc].k == ST_Z ? "idle forever" : "waiting for input that never comes") + ")");
-    }
-  }
-  return __real_waitpid(pid, status, flags);
-}
-
-extern "C" int __wrap_poll(struct pollfd* fds, nfds_t n, int timeout) {
-  bool mine = false;
-  for (nfds_t i = 0; i < n; i++) mine |= owned_fd(fds[i].fd);
-  if (!P.active || (!mine && n > 0)) return __real_poll(fds, n, timeout);
-  pre_syscall();
-  // fairness: a parent that keeps polling without sleeping (e.g. on a POLLERR it does not act on)
-  // must not starve the child, which a real kernel would keep running meanwhile
-  if (++P.polls_without_child_progress >= 3) child_step();
-  for (;;) {
-    int rc = __real_poll(fds, n, 0);
-    if (rc != 0 || timeout == 0) return rc;
-    // nothing ready: the parent would sleep, so the child gets to move
-    if (child_step()) continue;
-    if (timeout < 0) do_abort("deadlock: the parent sleeps in poll() without a timeout while the child cannot make progress");
-    P.vclock += (uint64_t)timeout * 1000;
-    return 0;
-  }
-}
-
-extern "C" ssize_t __wrap_read(int fd, void* buf, size_t n) {
-  if (!owned_fd(fd)) return __real_read(fd, buf, n);
-  pre_syscall();
-  if (!is_blocking(fd)) return __real_read(fd, buf, n);
-  set_nb(fd, true);
-  ssize_t r;
-  for (;;) {
-    r = __real_read(fd, buf, n);
-    if (r >= 0 || (errno != EAGAIN && errno != EWOULDBLOCK)) break;
-    if (!child_step()) { set_nb(fd, false); do_abort("deadlock: the parent blocks in read() on a pipe the child will never write to or close"); }
-  }
-  int e = errno;
-  set_nb(fd, false);
-  errno = e;
-  return r;
-}
-
-extern "C" ssize_t __wrap_write(int fd, const void* buf, size_t n) {
-  if (!owned_fd(fd)) return __real_write(fd, buf, n);
-  pre_syscall();
-  if (!is_blocking(fd)) return __real_write(fd, buf, n);
-  // a blocking write returns only when everything is written (or on error)
-  set_nb(fd, true);
-  size_t done = 0;
-  ssize_t r = 0;
-  while (done < n) {
-    r = __real_write(fd, (const char*)buf + done, n - done);
-    if (r > 0) { done += r; continue; }
-    if (r < 0 && (errno == EAGAIN || errno == EWOULDBLOCK)) {
-      if (!child_step()) { set_nb(fd, false); do_abort(vf::fmt("deadlock: the parent blocks in write() (%zu of %zu bytes written, pipe full) while the child is blocked too", done, n)); }
-      continue;
-    }
-    break;
-  }
-  int e = errno;
-  set_nb(fd, false);
-  errno = e;
-  if (done > 0) return (ssize_t)done;
-  return r;
-}
-
-extern "C" int __wrap_kill(pid_t pid, int sig) {
-  int r = __real_kill(pid, sig);
-  if (P.active && pid == P.pid && r == 0 && P.alive && (sig == SIGKILL || sig == SIGTERM)) {
-    P.killed_by_parent = true;
-    P.kill_signal = sig;
-    wait_waitable();
-  }
-  return r;
-}
-
-namespace {
-
-std::set<int> list_fds() {
-  std::set<int> s;
-  DIR* d = opendir("/proc/self/fd");
-  if (!d) return s;
-  int dfd = dirfd(d);
-  while (struct dirent* e = readdir(d)) {
-    if (e->d_name[0] == '.') continue;
-    int fd = atoi(e->d_name);
-    if (fd != dfd) s.insert(fd);
-  }
-  closedir(d);
-  return s;
-}
-
-unsigned char pattern(int stream, int64_t off) { return (unsigned char)((off * 31 + stream * 7 + (off >> 8)) & 0xFF); }
-std::string expect_stream(int stream, int64_t n) {
-  std::string s((size_t)n, 0);
-  for (int64_t i = 0; i < n; i++) s[i] = (char)pattern(stream, i);
-  return s;
-}
-std::string payload_of(size_t n) {
-  std::string s(n, 0);
-  for (size_t i = 0; i < n; i++) s[i] = (char)((i * 13 + (i >> 9) + 1) & 0xFF);
-  return s;
-}
-uint64_t fnv(const std::string& s) {
-  uint64_t h = 1469598103934665603ull;
-  for (unsigned char c : s) h = (h ^ c) * 1099511628211ull;
-  return h;
-}
-
-enum Api { API_RUN, API_COMM };
 struct Scenario {
   std::string name;
-  Api api;
-  bool has_stdin;
-  size_t payload;
-  std::vector<Step> script;
-  bool check;
-  uint64_t timeout;   // run_process timeout / communicate deadline (virtual microseconds), 0 none
+  std::vector<Call> calls;
   int bound_quick, bound_thorough;
-  bool reads_to_eof;
-  int want_status;    // wait status the script produces (-1: killed by the timeout -> SIGTERM)
 };
 
-std::string describe_script(const std::vector<Step>& sc) {
-  std::string s;
-  for (auto& st : sc) {
-    switch (st.k) {
-      case ST_R: s += vf::fmt("R(%lld) ", (long long)st.arg); break;
-      case ST_RALL: s += "R*EOF "; break;
-      case ST_W1: s += vf::fmt("W1(%lld) ", (long long)st.arg); break;
-      case ST_W2: s += vf::fmt("W2(%lld) ", (long long)st.arg); break;
-      case ST_C: s += vf::fmt("C%lld ", (long long)st.arg); break;
-      case ST_X: s += vf::fmt("X(%lld) ", (long long)st.arg); break;
-      case ST_K: s += vf::fmt("K(%lld) ", (long long)st.arg); break;
-      case ST_Z: s += "Z "; break;
-    }
-  }
-  return s;
+Call mk(Api api, bool has_stdin, size_t payload, std::vector<Step> script, bool check, uint64_t timeout, bool reads_to_eof, int want, int variant = 0, int ctx = 0) {
+  Call c;
+  c.api = api; c.has_stdin = has_stdin; c.payload = payload; c.script = std::move(script); c.check = check; c.timeout = timeout;
+  c.reads_to_eof = reads_to_eof; c.want_status = want; c.variant = variant; c.ctx = ctx;
+  return c;
+}
+Call life(void (*body)(Life&), const char* name, std::vector<Step> script, size_t payload = 0) {
+  Call c;
+  c.api = API_SUB; c.body = body; c.body_name = name; c.script = std::move(script); c.payload = payload;
+  return c;
 }
 
-struct Outcome { std::string fail, key; };
-
-Outcome run_scenario(const Scenario& sc, const std::string& vchild) {
-  Outcome o;
-  int cp[2], ap[2];
-  if (__real_pipe(cp) || __real_pipe(ap)) { o.fail = "ENGINE: pipe"; o.key = "engine"; return o; }
-  // child ends at fixed numbers (inherited across exec); parent ends close-on-exec
-  dup2(cp[0], CMD_FD);
-  dup2(ap[1], ACK_FD);
-  __real_close(cp[0]);
-  __real_close(ap[1]);
-  fcntl(cp[1], F_SETFD, FD_CLOEXEC);
-  fcntl(ap[0], F_SETFD, FD_CLOEXEC);
-  P = Proc();
-  P.cmd_w = cp[1];
-  P.ack_r = ap[0];
-  P.script = sc.script;
-  __real_gettimeofday(&P.base, nullptr);
-  std::string payload = payload_of(sc.payload);
-  std::set<int> before = list_fds();
-  SubprocessResult res;
-  std::string comm_out, threw, aborted;
-  int comm_status = -2;
-  bool returned = false;
-  P.active = true;
-  try {
-    if (sc.api == API_RUN) {
-      res = run_process({vchild}, sc.has_stdin ? &payload : nullptr, sc.check, nullptr, nullptr, sc.timeout);
-    } else {
-      Subprocess sp({vchild});
-      comm_out = sp.communicate(payload, sc.timeout);
-      comm_status = sp.wait();
-    }
-    returned = true;
-  } catch (const ProcAbort& a) {
-    aborted = a.why;
-  } catch (const std::exception& e) {
-    threw = e.what();
-  }
-  pid_t pid = P.pid;
-  size_t steps_done = P.pc;
-  P.active = false;
-  // ---- oracle ----
-  auto finish = [&](const std::string& key, const std::string& why) {
-    if (o.fail.empty()) { o.key = key; o.fail = why; }
-  };
-  const char* api = sc.api == API_RUN ? "run_process" : "communicate";
-  if (!aborted.empty()) {
-    finish(std::string(api) + ":" + (aborted.rfind("ENGINE", 0) == 0 ? "engine" : aborted.substr(0, aborted.find(':'))), aborted);
-  } else {
-    bool script_done = steps_done >= sc.script.size() || (sc.want_status == -1);
-    int want = sc.want_status == -1 ? SIGTERM : sc.want_status;
-    if (sc.api == API_RUN) {
-      bool must_throw = sc.check && want != 0;
-      if (!threw.empty() && !must_throw) finish("run_process:unexpected-exception", "threw: " + threw.substr(0, 200));
-      else if (threw.empty() && must_throw) finish("run_process:check-did-not-throw", vf::fmt("check=true and the child's wait status is %d, but no exception", want));
-      if (returned) {
-        if (!script_done) finish("run_process:returned-before-child-finished", vf::fmt("returned after %zu of %zu child steps", steps_done, sc.script.size()));
-        if (res.exit_status != want) finish("run_process:wrong-exit-status", vf::fmt("exit_status=%d, the child's wait status is %d", res.exit_status, want));
-        std::string w1 = expect_stream(1, P.out_total[1]), w2 = expect_stream(2, P.out_total[2]);
-        if (res.stdout_contents != w1) finish(res.stdout_contents.size() < w1.size() ? "run_process:stdout-truncated" : "run_process:stdout-wrong", vf::fmt("stdout_contents has %zu bytes, the child wrote %zu to stdout%s", res.stdout_contents.size(), w1.size(), res.stdout_contents.size() == w1.size() ? " (content differs)" : ""));
-        if (res.stderr_contents != w2) finish(res.stderr_contents.size() < w2.size() ? "run_process:stderr-truncated" : "run_process:stderr-wrong", vf::fmt("stderr_contents has %zu bytes, the child wrote %zu to stderr%s", res.stderr_contents.size(), w2.size(), res.stderr_contents.size() == w2.size() ? " (content differs)" : ""));
-      }
-      if ((returned || !threw.empty()) && sc.reads_to_eof && sc.has_stdin && want == sc.want_status) {
-        if (!P.in_eof) finish("run_process:stdin-not-closed", "the child read to end of input but never saw EOF on stdin");
-        else if ((size_t)P.in_total != payload.size() || P.in_hash != fnv(payload)) finish("run_process:payload-not-delivered", vf::fmt("the child received %lld bytes of the %zu-byte payload%s", (long long)P.in_total, payload.size(), (size_t)P.in_total == payload.size() ? " (content differs)" : ""));
-      }
-    } else {
-      if (!threw.empty()) finish(threw.find("timed out") != std::string::npos ? "communicate:spurious-timeout" : "communicate:unexpected-exception", "threw: " + threw.substr(0, 200) + vf::fmt(" (virtual time elapsed: %llu us, deadline %llu us)", (unsigned long long)P.vclock, (unsigned long long)sc.timeout));
-      if (returned) {
-        std::string w1 = expect_stream(1, P.out_total[1]);
-        if (!script_done) finish("communicate:returned-before-child-finished", vf::fmt("returned after %zu of %zu child steps", steps_done, sc.script.size()));
-        if (comm_out != w1) finish(comm_out.size() < w1.size() ? "communicate:stdout-truncated" : "communicate:stdout-wrong", vf::fmt("communicate returned %zu bytes, the child wrote %zu to stdout", comm_out.size(), w1.size()));
-        if (comm_status != want) finish("communicate:wrong-exit-status", vf::fmt("wait() = %d, the child's wait status is %d", comm_status, want));
-        if (sc.reads_to_eof && ((size_t)P.in_total != payload.size() || P.in_hash != fnv(payload) || !P.in_eof)) finish("communicate:payload-not-delivered", vf::fmt("the child received %lld bytes of the %zu-byte payload, eof=%d", (long long)P.in_total, payload.size(), (int)P.in_eof));
-      }
-    }
-    // reaped?
-    if (pid > 0 && (returned || !threw.empty())) {
-      int st;
-      pid_t w = __real_waitpid(pid, &st, WNOHANG);
-      if (!(w == -1 && errno == ECHILD)) finish(std::string(api) + ":child-not-reaped", w == 0 ? "the child is still running after the call" : "the child was a zombie after the call (not waited for)");
-    }
-    // descriptors
-    if (sc.api == API_RUN && (returned || !threw.empty())) {
-      std::set<int> after = list_fds();
-      if (after != before) {
-        std::string extra;
-        for (int fd : after) if (!before.count(fd)) extra += std::to_string(fd) + " ";
-        finish("run_process:descriptor-leak", "descriptors left open after the call: " + extra);
-      }
-    }
-  }
-  // ---- cleanup (whatever happened) ----
-  if (pid > 0) {
-    __real_kill(pid, SIGKILL);
-    int st;
-    while (__real_waitpid(pid, &st, 0) < 0 && errno == EINTR) {}
-  }
-  __real_close(CMD_FD);
-  __real_close(ACK_FD);
-  __real_close(cp[1]);
-  __real_close(ap[0]);
-  for (int fd : list_fds()) if (!before.count(fd) && fd != cp[1] && fd != ap[0]) __real_close(fd);
-  return o;
+std::vector<Step> chunked(size_t payload, size_t chunk, int code) {
+  std::vector<Step> sc;
+  for (size_t done = 0; done < payload; done += chunk) { sc.push_back({ST_R, (int64_t)chunk}); sc.push_back({ST_W1, (int64_t)chunk}); }
+  sc.push_back({ST_RALL, 0});
+  sc.push_back({ST_X, code});
+  return sc;
 }
 
 std::vector<Scenario> scenarios(bool thorough) {
   std::vector<Scenario> v;
-  auto W = [](int c) { return c << 8; };
-  // ---- run_process ----
+  auto one = [&](const std::string& name, Call c, int bq, int bt) { v.push_back({name, {std::move(c)}, bq, bt}); };
+  auto run = [&](const std::string& name, bool has_stdin, size_t payload, std::vector<Step> script, bool check, uint64_t timeout, int bq, int bt, bool reads_to_eof, int want, int variant = 0, int ctx = 0) {
+    one(name, mk(API_RUN, has_stdin, payload, std::move(script), check, timeout, reads_to_eof, want, variant, ctx), bq, bt);
+  };
+  auto comm = [&](const std::string& name, size_t payload, std::vector<Step> script, uint64_t deadline, int bq, int bt, bool reads_to_eof, int want, int variant = 0, int ctx = 0) {
+    one(name, mk(API_COMM, true, payload, std::move(script), false, deadline, reads_to_eof, want, variant, ctx), bq, bt);
+  };
+  const uint64_t K31 = 1ull << 31, K32 = 1ull << 32, K63 = 1ull << 63;
+
+  // ================= run_process =================
   for (size_t pl : {(size_t)0, (size_t)1, (size_t)4095, (size_t)4096, (size_t)65535, (size_t)65536, (size_t)65537, (size_t)200000, (size_t)1048576}) {
     bool big = pl > 65536;
-    v.push_back({vf::fmt("run: read-all-then-write, payload %zu", pl), API_RUN, true, pl, {{ST_RALL, 0}, {ST_W1, 5}, {ST_W2, 3}, {ST_X, 7}}, false, 0, big ? 1 : 2, big ? 2 : 3, true, W(7)});
+    run(vf::fmt("run: read-all-then-write, payload %zu", pl), true, pl, {{ST_RALL, 0}, {ST_W1, 5}, {ST_W2, 3}, {ST_X, 7}}, false, 0, big ? 1 : 2, big ? 2 : 3, true, W(7));
     if (pl == 0 || pl == 4096 || pl == 65537 || (thorough && pl != 1048576))
-      v.push_back({vf::fmt("run: write-then-read, payload %zu", pl), API_RUN, true, pl, {{ST_W1, 3000}, {ST_RALL, 0}, {ST_W2, 10}, {ST_X, 0}}, false, 0, big ? 1 : 2, big ? 2 : 3, true, 0});
+      run(vf::fmt("run: write-then-read, payload %zu", pl), true, pl, {{ST_W1, 3000}, {ST_RALL, 0}, {ST_W2, 10}, {ST_X, 0}}, false, 0, big ? 1 : 2, big ? 2 : 3, true, 0);
   }
-  v.push_back({"run: no stdin, child exits at once", API_RUN, false, 0, {{ST_X, 0}}, false, 0, 3, 4, false, 0});
-  v.push_back({"run: no stdin, write then exit immediately", API_RUN, false, 0, {{ST_W1, 6000}, {ST_X, 0}}, false, 0, 3, 4, false, 0});
-  v.push_back({"run: no stdin, write-pause-write", API_RUN, false, 0, {{ST_W1, 3000}, {ST_W2, 100}, {ST_W1, 3000}, {ST_X, 0}}, false, 0, 2, 3, false, 0});
-  v.push_back({"run: interleaved", API_RUN, true, 10000, {{ST_R, 4096}, {ST_W1, 100}, {ST_R, 4096}, {ST_W2, 100}, {ST_RALL, 0}, {ST_W1, 50}, {ST_X, 3}}, false, 0, 2, 3, true, W(3)});
-  v.push_back({"run: slow reader", API_RUN, true, 70000, {{ST_R, 1}, {ST_R, 1}, {ST_R, 100}, {ST_RALL, 0}, {ST_X, 0}}, false, 0, 1, 2, true, 0});
-  v.push_back({"run: 200 KB on stdout and stderr", API_RUN, false, 0, {{ST_W1, 200000}, {ST_W2, 200000}, {ST_X, 0}}, false, 0, 1, 2, false, 0});
-  v.push_back({"run: stdout and stderr alternating 70 KB", API_RUN, true, 5, {{ST_W2, 70000}, {ST_W1, 70000}, {ST_RALL, 0}, {ST_W2, 70000}, {ST_X, 1}}, false, 0, 1, 2, true, W(1)});
-  v.push_back({"run: child closes stdin early, payload 200000", API_RUN, true, 200000, {{ST_C, 0}, {ST_W1, 10}, {ST_X, 0}}, false, 0, 1, 2, false, 0});
-  v.push_back({"run: child exits without reading, payload 200000", API_RUN, true, 200000, {{ST_W1, 10}, {ST_X, 5}}, false, 0, 1, 2, false, W(5)});
+  if (thorough) for (size_t pl : {(size_t)2, (size_t)4097, (size_t)8192, (size_t)131071, (size_t)131072, (size_t)131073, (size_t)4194304})
+    run(vf::fmt("run: read-all-then-write, payload %zu", pl), true, pl, {{ST_RALL, 0}, {ST_W1, 5}, {ST_W2, 3}, {ST_X, 7}}, false, 0, 1, pl > 65536 ? 1 : 2, true, W(7));
+  run("run: no stdin, child exits at once", false, 0, {{ST_X, 0}}, false, 0, 3, 4, false, 0);
+  run("run: no stdin, write then exit immediately", false, 0, {{ST_W1, 6000}, {ST_X, 0}}, false, 0, 3, 4, false, 0);
+  run("run: no stdin, write-pause-write", false, 0, {{ST_W1, 3000}, {ST_W2, 100}, {ST_W1, 3000}, {ST_X, 0}}, false, 0, 2, 3, false, 0);
+  run("run: interleaved", true, 10000, {{ST_R, 4096}, {ST_W1, 100}, {ST_R, 4096}, {ST_W2, 100}, {ST_RALL, 0}, {ST_W1, 50}, {ST_X, 3}}, false, 0, 2, 3, true, W(3));
+  run("run: slow reader", true, 70000, {{ST_R, 1}, {ST_R, 1}, {ST_R, 100}, {ST_RALL, 0}, {ST_X, 0}}, false, 0, 1, 2, true, 0);
+  run("run: 200 KB on stdout and stderr", false, 0, {{ST_W1, 200000}, {ST_W2, 200000}, {ST_X, 0}}, false, 0, 1, 2, false, 0);
+  run("run: stdout and stderr alternating 70 KB", true, 5, {{ST_W2, 70000}, {ST_W1, 70000}, {ST_RALL, 0}, {ST_W2, 70000}, {ST_X, 1}}, false, 0, 1, 2, true, W(1));
+  run("run: child closes stdin early, payload 200000", true, 200000, {{ST_C, 0}, {ST_W1, 10}, {ST_X, 0}}, false, 0, 1, 2, false, 0);
+  run("run: child exits without reading, payload 200000", true, 200000, {{ST_W1, 10}, {ST_X, 5}}, false, 0, 1, 2, false, W(5));
+  run("run: child reads 4096 then exits while the parent still writes, payload 200000", true, 200000, {{ST_R, 4096}, {ST_W2, 7}, {ST_X, 0}}, false, 0, 1, 2, false, 0);
+  // output sizes around one pipe-full and around run_process' read block
+  for (int64_t n : {(int64_t)65535, (int64_t)65536, (int64_t)65537, (int64_t)131072, (int64_t)131073})
+    if (thorough || n == 65536 || n == 131073)
+      run(vf::fmt("run: no stdin, %lld bytes on stdout and on stderr, exit at once", (long long)n), false, 0, {{ST_W1, n}, {ST_W2, n}, {ST_X, 0}}, false, 0, 1, 2, false, 0);
   for (int code : {0, 1, 255}) {
-    v.push_back({vf::fmt("run: exit code %d, check=false", code), API_RUN, true, 3, {{ST_RALL, 0}, {ST_W1, 4}, {ST_X, code}}, false, 0, 2, 3, true, W(code)});
-    v.push_back({vf::fmt("run: exit code %d, check=true", code), API_RUN, true, 3, {{ST_RALL, 0}, {ST_W2, 4}, {ST_X, code}}, true, 0, 2, 3, true, W(code)});
+    run(vf::fmt("run: exit code %d, check=false", code), true, 3, {{ST_RALL, 0}, {ST_W1, 4}, {ST_X, code}}, false, 0, 2, 3, true, W(code));
+    run(vf::fmt("run: exit code %d, check=true", code), true, 3, {{ST_RALL, 0}, {ST_W2, 4}, {ST_X, code}}, true, 0, 2, 3, true, W(code));
   }
-  v.push_back({"run: child killed by SIGTERM", API_RUN, true, 3, {{ST_RALL, 0}, {ST_W1, 4}, {ST_K, SIGTERM}}, false, 0, 2, 3, true, SIGTERM});
-  v.push_back({"run: child killed by SIGKILL, check=true", API_RUN, false, 0, {{ST_W1, 4}, {ST_K, SIGKILL}}, true, 0, 2, 3, false, SIGKILL});
-  v.push_back({"run: child hangs, timeout 2.5 s", API_RUN, true, 3, {{ST_W1, 9}, {ST_Z, 0}}, false, 2500000, 2, 3, false, -1});
-  v.push_back({"run: child finishes well inside a timeout", API_RUN, true, 3, {{ST_RALL, 0}, {ST_W1, 9}, {ST_X, 0}}, false, 30000000, 2, 3, true, 0});
+  run("run: child killed by SIGTERM", true, 3, {{ST_RALL, 0}, {ST_W1, 4}, {ST_K, SIGTERM}}, false, 0, 2, 3, true, SIGTERM);
+  run("run: child killed by SIGKILL, check=true", false, 0, {{ST_W1, 4}, {ST_K, SIGKILL}}, true, 0, 2, 3, false, SIGKILL);
+  // every exit code, and every terminating signal that needs no special set-up
+  for (int code = 0; code < 256; code++)
+    run(vf::fmt("run: every exit code: %d, check=%d", code, code & 1), false, 0, {{ST_W1, 4}, {ST_X, code}}, (code & 1) != 0, 0, 1, 2, false, W(code));
+  {
+    int i = 0;
+    for (int sig : {SIGHUP, SIGINT, SIGQUIT, SIGILL, SIGABRT, SIGBUS, SIGFPE, SIGKILL, SIGUSR1, SIGSEGV, SIGUSR2, SIGPIPE, SIGALRM, SIGTERM, SIGXCPU, SIGVTALRM, SIGSYS})
+      run(vf::fmt("run: child dies by signal %d, check=%d", sig, i & 1), false, 0, {{ST_W2, 4}, {ST_K, sig}}, (i++ & 1) != 0, 0, 2, 3, false, sig);
+  }
+  // timeouts
+  run("run: child hangs, timeout 2.5 s", true, 3, {{ST_W1, 9}, {ST_Z, 0}}, false, 2500000, 2, 3, false, -1);
+  run("run: child hangs, timeout 1 us", false, 0, {{ST_W1, 9}, {ST_Z, 0}}, false, 1, 2, 3, false, -1);
+  // (not enumerated: a child that closes stdout/stderr and then hangs under a timeout — run_process spins on POLLHUP
+  // without sleeping until the timeout expires; real time passes, virtual time does not, see notes)
+  run("run: child ignores SIGTERM and hangs, timeout 2.5 s (SIGKILL follows)", false, 0, {{ST_I, SIGTERM}, {ST_W1, 9}, {ST_Z, 0}}, false, 2500000, 2, 3, false, -1);
+  run("run: child finishes well inside a timeout", true, 3, {{ST_RALL, 0}, {ST_W1, 9}, {ST_X, 0}}, false, 30000000, 2, 3, true, 0);
+  for (uint64_t t : {(uint64_t)1, K31 - 1, K31, K32 - 1, K32, K63 - 1, K63, UINT64_MAX - 1, UINT64_MAX})
+    run(vf::fmt("run: child finishes, timeout %llu us", (unsigned long long)t), true, 3, {{ST_RALL, 0}, {ST_W1, 9}, {ST_P, 0}, {ST_X, 0}}, false, t, 2, 3, true, 0);
+  // children that close their output early and linger
+  run("run: child closes stdout and stderr early, lingers, then reads and exits", true, 5000, {{ST_W1, 10}, {ST_W2, 10}, {ST_C, 1}, {ST_C, 2}, {ST_P, 0}, {ST_P, 0}, {ST_RALL, 0}, {ST_X, 3}}, false, 0, 2, 3, true, W(3));
+  run("run: no stdin, child closes stdout and stderr early and lingers", false, 0, {{ST_W1, 10}, {ST_C, 1}, {ST_C, 2}, {ST_P, 0}, {ST_P, 0}, {ST_X, 0}}, true, 0, 2, 3, false, 0);
+  run("run: child closes stderr only, keeps writing stdout", false, 0, {{ST_C, 2}, {ST_W1, 70000}, {ST_P, 0}, {ST_W1, 10}, {ST_X, 0}}, false, 0, 1, 2, false, 0);
   // chunked echo: the child reads a little, echoes it, reads a little more (payload far beyond both pipes' capacity)
-  auto chunked = [](size_t payload, size_t chunk, int code) {
-    std::vector<Step> sc;
-    for (size_t done = 0; done < payload; done += chunk) { sc.push_back({ST_R, (int64_t)chunk}); sc.push_back({ST_W1, (int64_t)chunk}); }
-    sc.push_back({ST_RALL, 0});
-    sc.push_back({ST_X, code});
-    return sc;
-  };
-  v.push_back({"run: chunked echo 4096 x 60 (payload 245760)", API_RUN, true, 245760, chunked(245760, 4096, 0), false, 0, 1, 2, true, 0});
-  v.push_back({"run: chunked echo 1 x 12", API_RUN, true, 12, chunked(12, 1, 4), false, 0, 2, 3, true, W(4)});
-  // ---- Subprocess::communicate ----
+  run("run: chunked echo 4096 x 60 (payload 245760)", true, 245760, chunked(245760, 4096, 0), false, 0, 1, 1, true, 0);
+  run("run: chunked echo 1 x 12", true, 12, chunked(12, 1, 4), false, 0, 2, 2, true, W(4));
+  run("run: chunked echo 1 x 4", true, 4, chunked(4, 1, 4), false, 0, 2, 3, true, W(4));
+  // overload / argument variants
+  run("run: trailing arguments defaulted (check=true), exit 0", true, 3, {{ST_RALL, 0}, {ST_W1, 4}, {ST_X, 0}}, true, 0, 1, 2, true, 0, V_DEFAULT_ARGS);
+  run("run: all arguments defaulted (no stdin, check=true), exit 2", false, 0, {{ST_W2, 4}, {ST_X, 2}}, true, 0, 1, 2, false, W(2), V_DEFAULT_ARGS);
+  run("run: cwd and env given", true, 3, {{ST_RALL, 0}, {ST_W1, 4}, {ST_W2, 4}, {ST_X, 6}}, false, 0, 1, 2, true, W(6), V_CWD_ENV);
+  run("run: fork fails (don't-care: executed, not compared)", true, 3, {{ST_X, 0}}, false, 0, 0, 0, false, 0, V_FORK_FAILS);
+  // calling context
+  run("run: inside a catch handler", true, 3, {{ST_RALL, 0}, {ST_W1, 4}, {ST_W2, 3}, {ST_X, 1}}, false, 0, 1, 2, true, W(1), 0, CTX_IN_CATCH);
+  run("run: inside a catch handler, check=true throws", true, 3, {{ST_RALL, 0}, {ST_W1, 4}, {ST_X, 1}}, true, 0, 1, 2, true, W(1), 0, CTX_IN_CATCH);
+  run("run: in a destructor during unwinding", true, 3, {{ST_RALL, 0}, {ST_W1, 4}, {ST_W2, 3}, {ST_X, 1}}, false, 0, 1, 2, true, W(1), 0, CTX_UNWINDING);
+
+  // ================= Subprocess::communicate =================
   for (uint64_t dl : {(uint64_t)0, (uint64_t)5000000}) {
     const char* d = dl ? "deadline 5 s" : "no deadline";
     for (size_t pl : {(size_t)0, (size_t)10, (size_t)4096, (size_t)65537, (size_t)1048576}) {
       bool big = pl > 65536;
       if (big && pl == 1048576 && !thorough && dl) continue;
-      v.push_back({vf::fmt("comm: cat-like echo of %zu bytes, %s", pl, d), API_COMM, true, pl, pl == 0 ? std::vector<Step>{{ST_RALL, 0}, {ST_W1, 10}, {ST_X, 0}} : big ? std::vector<Step>{{ST_R, 65536}, {ST_W1, 65536}, {ST_R, 65536}, {ST_W1, 65536}, {ST_RALL, 0}, {ST_W1, 70000}, {ST_X, 0}} : std::vector<Step>{{ST_RALL, 0}, {ST_W1, (int64_t)pl}, {ST_X, 0}}, false, dl, big ? 1 : 2, big ? 2 : 3, true, 0});
+      comm(vf::fmt("comm: cat-like echo of %zu bytes, %s", pl, d), pl, pl == 0 ? std::vector<Step>{{ST_RALL, 0}, {ST_W1, 10}, {ST_X, 0}} : big ? std::vector<Step>{{ST_R, 65536}, {ST_W1, 65536}, {ST_R, 65536}, {ST_W1, 65536}, {ST_RALL, 0}, {ST_W1, 70000}, {ST_X, 0}} : std::vector<Step>{{ST_RALL, 0}, {ST_W1, (int64_t)pl}, {ST_X, 0}}, dl, big ? 1 : 2, pl == 1048576 ? 1 : big ? 2 : 3, true, 0);
     }
-    v.push_back({vf::fmt("comm: chunked echo 4096 x 60 (payload 245760), %s", d), API_COMM, true, 245760, chunked(245760, 4096, 0), false, dl, 1, 2, true, 0});
-    v.push_back({vf::fmt("comm: chunked echo 1000 x 9 then 70000 more output, %s", d), API_COMM, true, 9000, [&] { auto sc = chunked(9000, 1000, 0); sc.insert(sc.end() - 1, Step{ST_W1, 70000}); return sc; }(), false, dl, 1, 2, true, 0});
-    v.push_back({vf::fmt("comm: read all, write 3000, write 3000, exit, %s", d), API_COMM, true, 10, {{ST_RALL, 0}, {ST_W1, 3000}, {ST_W1, 3000}, {ST_X, 0}}, false, dl, 2, 3, true, 0});
-    v.push_back({vf::fmt("comm: write 100000 then exit 2, %s", d), API_COMM, true, 0, {{ST_W1, 100000}, {ST_X, 2}}, false, dl, 1, 2, false, W(2)});
-    v.push_back({vf::fmt("comm: child exits at once, %s", d), API_COMM, true, 5, {{ST_X, 0}}, false, dl, 3, 4, false, 0});
-    v.push_back({vf::fmt("comm: child closes stdout early then reads, %s", d), API_COMM, true, 5000, {{ST_W1, 10}, {ST_C, 1}, {ST_RALL, 0}, {ST_X, 0}}, false, dl, 2, 3, true, 0});
+    comm(vf::fmt("comm: chunked echo 4096 x 60 (payload 245760), %s", d), 245760, chunked(245760, 4096, 0), dl, 1, 1, true, 0);
+    comm(vf::fmt("comm: chunked echo 1000 x 9 then 70000 more output, %s", d), 9000, [&] { auto sc = chunked(9000, 1000, 0); sc.insert(sc.end() - 1, Step{ST_W1, 70000}); return sc; }(), dl, 1, 2, true, 0);
+    comm(vf::fmt("comm: read all, write 3000, write 3000, exit, %s", d), 10, {{ST_RALL, 0}, {ST_W1, 3000}, {ST_W1, 3000}, {ST_X, 0}}, dl, 2, 3, true, 0);
+    comm(vf::fmt("comm: write 100000 then exit 2, %s", d), 0, {{ST_W1, 100000}, {ST_X, 2}}, dl, 1, 2, false, W(2));
+    comm(vf::fmt("comm: child exits at once, %s", d), 5, {{ST_X, 0}}, dl, 3, 4, false, 0);
+    comm(vf::fmt("comm: child closes stdout early then reads, %s", d), 5000, {{ST_W1, 10}, {ST_C, 1}, {ST_RALL, 0}, {ST_X, 0}}, dl, 2, 3, true, 0);
+    // the child closes stdout and lingers: the parent has nothing left to poll and blocks in waitpid
+    comm(vf::fmt("comm: child reads all, writes, closes stdout, lingers, exit 5, %s", d), 10, {{ST_RALL, 0}, {ST_W1, 10}, {ST_C, 1}, {ST_P, 0}, {ST_P, 0}, {ST_X, 5}}, dl, 2, 3, true, W(5));
+    comm(vf::fmt("comm: empty payload, child closes stdout at once and lingers, %s", d), 0, {{ST_C, 1}, {ST_P, 0}, {ST_W2, 20}, {ST_P, 0}, {ST_X, 0}}, dl, 2, 3, false, 0);
+    comm(vf::fmt("comm: child reads 4096 then exits while the parent still writes, payload 200000, %s", d), 200000, {{ST_R, 4096}, {ST_W1, 7}, {ST_X, 0}}, dl, 1, 2, false, 0);
+    comm(vf::fmt("comm: child closes stdin early, lingers writing 70000, payload 200000, %s", d), 200000, {{ST_C, 0}, {ST_W1, 70000}, {ST_P, 0}, {ST_X, 0}}, dl, 1, 2, false, 0);
   }
+  for (size_t pl : {(size_t)1, (size_t)4095, (size_t)4097, (size_t)8192, (size_t)65536})
+    if (thorough || pl == 4097 || pl == 8192)
+      comm(vf::fmt("comm: cat-like echo of %zu bytes, no deadline", pl), pl, {{ST_RALL, 0}, {ST_W1, (int64_t)pl}, {ST_X, 0}}, 0, 1, 2, true, 0);
+  comm("comm: (ptr,len) overload, cat-like echo of 10 bytes", 10, {{ST_RALL, 0}, {ST_W1, 10}, {ST_X, 0}}, 0, 2, 3, true, 0, V_PTRLEN);
+  comm("comm: (ptr,len) overload, echo of 65537 bytes, deadline 5 s", 65537, {{ST_R, 65536}, {ST_W1, 65536}, {ST_RALL, 0}, {ST_W1, 1}, {ST_X, 9}}, 5000000, 1, 2, true, W(9), V_PTRLEN);
+  comm("comm: (ptr,len) overload, empty payload", 0, {{ST_RALL, 0}, {ST_W1, 10}, {ST_X, 0}}, 0, 1, 2, true, 0, V_PTRLEN);
+  comm("comm: child writes to stderr too (nobody reads it)", 10, {{ST_RALL, 0}, {ST_W2, 100}, {ST_W1, 10}, {ST_W2, 100}, {ST_X, 0}}, 0, 2, 3, true, 0);
+  comm("comm: stderr_fd=/dev/null, 200000 bytes of stderr", 10, {{ST_RALL, 0}, {ST_W2, 200000}, {ST_W1, 10}, {ST_X, 0}}, 0, 1, 2, true, 0, V_STDERR_DEVNULL);
+  comm("comm: stdin_fd=/dev/null, empty payload", 0, {{ST_RALL, 0}, {ST_W1, 5000}, {ST_X, 3}}, 0, 2, 3, true, W(3), V_STDIN_DEVNULL);
+  comm("comm: child hangs, deadline 5 s (must time out, child ended and reaped)", 10, {{ST_RALL, 0}, {ST_W1, 10}, {ST_Z, 0}}, 5000000, 2, 3, true, -1);
+  comm("comm: empty payload, child hangs, deadline 5 s (must time out, child ended and reaped)", 0, {{ST_RALL, 0}, {ST_W1, 10}, {ST_Z, 0}}, 5000000, 2, 3, true, -1);
+  comm("comm: (ptr,len) overload, empty payload, child hangs, deadline 5 s (must time out)", 0, {{ST_W1, 10}, {ST_Z, 0}}, 5000000, 1, 2, false, -1, V_PTRLEN);
+  comm("comm: exit code 255", 3, {{ST_RALL, 0}, {ST_W1, 4}, {ST_X, 255}}, 0, 1, 2, true, W(255));
+  comm("comm: child dies by SIGSEGV", 3, {{ST_RALL, 0}, {ST_W1, 4}, {ST_K, SIGSEGV}}, 0, 1, 2, true, SIGSEGV);
+  comm("comm: child dies by SIGKILL, deadline 5 s", 3, {{ST_W1, 4}, {ST_K, SIGKILL}}, 5000000, 1, 2, false, SIGKILL);
+  for (uint64_t t : {(uint64_t)1000, K31 - 1, K31, K32 - 1, K32, K63 - 1, K63, UINT64_MAX - 1, UINT64_MAX})
+    comm(vf::fmt("comm: cat-like echo of 10 bytes, deadline %llu us", (unsigned long long)t), 10, {{ST_RALL, 0}, {ST_W1, 10}, {ST_P, 0}, {ST_X, 0}}, t, 2, 3, true, 0);
+  comm("comm: inside a catch handler", 10, {{ST_RALL, 0}, {ST_W1, 10}, {ST_X, 1}}, 0, 1, 2, true, W(1), 0, CTX_IN_CATCH);
+  comm("comm: in a destructor during unwinding, child lingers after closing stdout", 10, {{ST_RALL, 0}, {ST_W1, 10}, {ST_C, 1}, {ST_P, 0}, {ST_X, 1}}, 0, 1, 2, true, W(1), 0, CTX_UNWINDING);
+
+  // ================= Subprocess life cycle =================
+  one("life: default-constructed object created and destroyed", life(life_default_only, "Subprocess(); ~Subprocess()", {}), 0, 0);
+  one("life: destroy while the child hangs (no wait)", life(life_destroy_running, "{ Subprocess sp(cmd); }", {{ST_W1, 5}, {ST_Z, 0}}), 2, 3);
+  one("life: destroy while the child is about to exit on its own", life(life_destroy_running, "{ Subprocess sp(cmd); }", {{ST_W1, 5}, {ST_P, 0}, {ST_X, 3}}), 3, 4);
+  one("life: destroy while the child is about to die by a signal", life(life_destroy_running, "{ Subprocess sp(cmd); }", {{ST_K, SIGINT}}), 3, 4);
+  one("life: kill(SIGTERM), wait(), wait(true), wait()", life(life_kill_then_wait, "sp.kill(SIGTERM); sp.wait() x3", {{ST_W1, 5}, {ST_Z, 0}}), 2, 3);
+  one("life: kill(SIGTERM) then wait, child about to exit", life(life_kill_then_wait, "sp.kill(SIGTERM); sp.wait() x3", {{ST_P, 0}, {ST_P, 0}, {ST_Z, 0}}), 2, 3);
+  one("life: kill(SIGKILL) then destroy, child hangs", life(life_kill_then_destroy, "sp.kill(SIGKILL); ~Subprocess()", {{ST_Z, 0}}), 2, 3);
+  one("life: kill(SIGKILL) then destroy, child about to exit", life(life_kill_then_destroy, "sp.kill(SIGKILL); ~Subprocess()", {{ST_P, 0}, {ST_X, 0}}), 2, 3);
+  one("life: wait(true) x4, wait(), wait(true); child exits 5", life(life_poll_wait, "sp.wait(true) x4; sp.wait(); sp.wait(true)", {{ST_P, 0}, {ST_P, 0}, {ST_X, 5}}), 3, 4);
+  one("life: wait(true) x4, wait(), wait(true); child dies by SIGUSR1", life(life_poll_wait, "sp.wait(true) x4; sp.wait(); sp.wait(true)", {{ST_W1, 3}, {ST_K, SIGUSR1}}), 3, 4);
+  one("life: close stdin, blocking wait()", life(life_close_stdin_wait, "close(sp.stdin_fd()); sp.wait()", {{ST_RALL, 0}, {ST_W1, 10}, {ST_P, 0}, {ST_X, 2}}), 2, 3);
+  one("life: move-construct, destroy the source, communicate, wait", life(life_move_ctor, "Subprocess b(std::move(a)); ~a; b.communicate(); b.wait()", {{ST_RALL, 0}, {ST_W1, 20}, {ST_X, 4}}, 10), 2, 3);
+  one("life: move-assign to a default-constructed object, destroy the source, communicate, wait", life(life_move_assign, "Subprocess c; c = std::move(a); ~a; c.communicate(ptr,len); c.wait()", {{ST_RALL, 0}, {ST_W1, 20}, {ST_X, 4}}, 10), 2, 3);
+
+  {
+    Call c = life(life_destroy_running, "{ Subprocess sp(cmd); }", {{ST_W1, 5}, {ST_Z, 0}});
+    c.ctx = CTX_UNWINDING;
+    one("life: destroy while the child hangs, in a destructor during unwinding", c, 1, 2);
+    c.ctx = CTX_IN_CATCH;
+    one("life: destroy while the child hangs, inside a catch handler", c, 1, 2);
+  }
+
+  // ================= histories: several calls in one process (state carried between calls, leftover descriptors) =====
+  Call r_small = mk(API_RUN, true, 3, {{ST_RALL, 0}, {ST_W1, 4}, {ST_X, 0}}, false, 0, true, 0);
+  Call r_large = mk(API_RUN, true, 70000, {{ST_RALL, 0}, {ST_W1, 70000}, {ST_W2, 10}, {ST_X, 1}}, false, 0, true, W(1));
+  Call r_nostdin = mk(API_RUN, false, 0, {{ST_W1, 6000}, {ST_W2, 5}, {ST_X, 0}}, false, 0, false, 0);
+  Call r_wtr = mk(API_RUN, true, 4096, {{ST_W1, 3000}, {ST_RALL, 0}, {ST_W2, 10}, {ST_X, 0}}, false, 0, true, 0);
+  Call r_throw = mk(API_RUN, true, 3, {{ST_RALL, 0}, {ST_W2, 4}, {ST_X, 1}}, true, 0, true, W(1));
+  Call r_timeout = mk(API_RUN, true, 3, {{ST_W1, 9}, {ST_Z, 0}}, false, 2500000, false, -1);
+  Call r_epipe = mk(API_RUN, true, 200000, {{ST_W1, 10}, {ST_X, 5}}, false, 0, false, W(5));
+  Call c_small = mk(API_COMM, true, 10, {{ST_RALL, 0}, {ST_W1, 10}, {ST_X, 0}}, false, 0, true, 0);
+  Call c_large = mk(API_COMM, true, 65537, {{ST_R, 65536}, {ST_W1, 65536}, {ST_RALL, 0}, {ST_W1, 1}, {ST_X, 9}}, false, 5000000, true, W(9));
+  Call c_linger = mk(API_COMM, true, 10, {{ST_RALL, 0}, {ST_W1, 10}, {ST_C, 1}, {ST_P, 0}, {ST_X, 5}}, false, 0, true, W(5));
+  Call c_timeout = mk(API_COMM, true, 10, {{ST_RALL, 0}, {ST_W1, 10}, {ST_Z, 0}}, false, 5000000, true, -1);
+  Call l_destroy = life(life_destroy_running, "{ Subprocess sp(cmd); }", {{ST_W1, 5}, {ST_Z, 0}});
+  v.push_back({"hist: run small, run large", {r_small, r_large}, 2, 2});
+  v.push_back({"hist: run large, run small", {r_large, r_small}, 2, 2});
+  v.push_back({"hist: run no-stdin, run write-then-read, run no-stdin (A-B-A)", {r_nostdin, r_wtr, r_nostdin}, 2, 2});
+  v.push_back({"hist: run small, run no-stdin, run small (A-B-A)", {r_small, r_nostdin, r_small}, 2, 2});
+  v.push_back({"hist: run check=true throws, run small", {r_throw, r_small}, 2, 2});
+  v.push_back({"hist: run timeout kills the child, run small", {r_timeout, r_small}, 2, 2});
+  v.push_back({"hist: run timeout kills the child, run small, run timeout kills the child", {r_timeout, r_small, r_timeout}, 2, 2});
+  v.push_back({"hist: run EPIPE (child exits without reading), run large", {r_epipe, r_large}, 1, 1});
+  v.push_back({"hist: run small x5 (descriptor table identical after every call)", {r_small, r_small, r_small, r_small, r_small}, 1, 1});
+  v.push_back({"hist: comm small, comm large", {c_small, c_large}, 1, 2});
+  v.push_back({"hist: comm large, comm small", {c_large, c_small}, 1, 2});
+  v.push_back({"hist: comm lingering child, comm small, comm lingering child", {c_linger, c_small, c_linger}, 1, 2});
+  v.push_back({"hist: comm times out, comm small", {c_timeout, c_small}, 2, 2});
+  v.push_back({"hist: comm small, run small, comm small", {c_small, r_small, c_small}, 2, 2});
+  v.push_back({"hist: run large, comm large, run small", {r_large, c_large, r_small}, 1, 1});
+  v.push_back({"hist: destroy a hanging child, run small, destroy a hanging child", {l_destroy, r_small, l_destroy}, 2, 2});
   return v;
+}
+
+unsigned slices_for(int bound) { return bound <= 0 ? 1 : bound == 1 ? 4 : 16; }
+
+std::string describe(const Scenario& sc, int bound) {
+  std::string s = sc.name + " :: ";
+  for (size_t i = 0; i < sc.calls.size(); i++) s += (i ? " ; THEN " : "") + describe_call(sc.calls[i]);
+  s += vf::fmt("; environment answers: child runs {0,1,2,all} steps ahead at each parent waitpid/poll/read/write, EINTR where the parent would sleep (and at run_process' non-blocking read/write), <=%d non-default answers per execution", bound);
+  return s;
 }
 
 }  // namespace
 
 VF_SECTION(schedules, 16, 16, 300) {
   signal(SIGPIPE, SIG_IGN);
+  struct rlimit nocore = {0, 0};
+  setrlimit(RLIMIT_CORE, &nocore);  // children that die by SIGSEGV/SIGABRT/... must not dump core (and the status has no core bit)
   const char* vc = getenv("VF_AUX_vchild");
   if (!vc) { fprintf(stderr, "VF_AUX_vchild not set\n"); _exit(3); }
   std::string vchild = vc;
+  bool timing = getenv("C15_TIMING") != nullptr;
   auto scs = scenarios(r.thorough());
+  uint64_t nscen = 0;
   for (auto& sc : scs) {
-    if (!r.take()) continue;
-    r.note(sc.api == API_RUN ? "run_process" : "communicate");
     int bound = r.thorough() ? sc.bound_thorough : sc.bound_quick;
-    std::string cd = vf::fmt("%s :: child script [ %s], check=%d, timeout/deadline=%llu us(virtual); child may run {0,1,2,all} steps ahead at each parent waitpid/poll/read/write, <=%d such deviations", sc.name.c_str(), describe_script(sc.script).c_str(), (int)sc.check, (unsigned long long)sc.timeout, bound);
-    if (r.wants_desc()) r.desc(cd);
-    Outcome last;
-    auto st = vfe::explore(g_env, [&] { r.beat(); last = run_scenario(sc, vchild); return last.fail; }, bound, r.thorough() ? 400000 : 60000);
-    r.states += st.executions;
-    r.transitions += st.choice_points;
-    r.counters["executions"] += st.executions;
-    r.counters["executions: " + sc.name] = st.executions;
-    if (!st.complete && st.failure.empty()) { r.exhaustive = false; r.ok("execution-cap-hit"); }
-    r.nontriv();
-    if (!st.failure.empty()) {
-      std::string key = last.key;
-      bool engine = st.failure.rfind("ENGINE", 0) == 0;
-      if (!engine) {
-        // replay-before-report: the same choice sequence must fail the same way
-        g_env.begin(st.failing_choices);
-        Outcome again = run_scenario(sc, vchild);
-        if (again.key != key) { engine = true; key = "engine-nonreproducible"; }
+    unsigned ns = slices_for(bound);
+    nscen++;
+    for (unsigned slice = 0; slice < ns; slice++) {
+      if (!r.take()) continue;
+      r.note(sc.calls[0].api == API_RUN ? "run_process" : sc.calls[0].api == API_COMM ? "communicate" : "Subprocess");
+      std::string cd;
+      if (r.wants_desc()) { cd = describe(sc, bound) + vf::fmt(" [slice %u of %u of the schedule tree]", slice + 1, ns); r.desc(cd); }
+      int amb = r.ambient_errno();
+      std::set<int> fds_before = list_fds();
+      bool fd_table_changed = false;
+      auto run_once = [&]() -> Outcome {
+        r.beat();
+        Outcome o;
+        for (size_t i = 0; i < sc.calls.size(); i++) {
+          o = run_call(sc.calls[i], vchild, amb);
+          if (!o.fail.empty()) {
+            if (sc.calls.size() > 1) o.fail = vf::fmt("call %zu of %zu: ", i + 1, sc.calls.size()) + o.fail;
+            break;
+          }
+        }
+        if (list_fds() != fds_before) fd_table_changed = true;  // run_call restores the table whatever happened: engine self-check
+        return o;
+      };
+      struct timespec t0, t1;
+      clock_gettime(CLOCK_MONOTONIC, &t0);
+      auto st = c15::explore_slice(g_env, run_once, bound, r.thorough() ? 400000 : 60000, slice, ns);
+      clock_gettime(CLOCK_MONOTONIC, &t1);
+      if (timing) fprintf(stderr, "TIMING %8.0f ms %7llu exec  %s [%u/%u]\n", (t1.tv_sec - t0.tv_sec) * 1e3 + (t1.tv_nsec - t0.tv_nsec) / 1e6, (unsigned long long)st.executions, sc.name.c_str(), slice + 1, ns);
+      r.states += st.executions;
+      r.transitions += st.choice_points;
+      r.counters["executions"] += st.executions;
+      r.counters["executions: " + sc.name] += st.executions;
+      if (slice == 0) r.counters["scenarios"]++;
+      r.nontriv();
+      if (fd_table_changed) r.fail("engine:descriptor-table-not-restored", [&] { return describe(sc, bound); });
+      if (!st.complete && st.found.empty()) { r.exhaustive = false; r.ok("execution-cap-hit"); continue; }
+      if (st.found.empty()) {
+        r.ok(st.executions < 100 ? "lt-100-schedules" : st.executions < 2000 ? "lt-2000-schedules" : "ge-2000-schedules");
+        continue;
       }
-      r.fail(engine ? "engine:" + key : key, [&] { return cd + " :: " + st.failure + vf::fmt(" :: found at deviation level %llu after %llu executions; choices (index/options per parent syscall) = [ ", (unsigned long long)st.max_deviations + 0, (unsigned long long)st.executions) + st.failing_trace + "]"; });
-    } else r.ok(st.executions < 100 ? "lt-100-schedules" : st.executions < 2000 ? "lt-2000-schedules" : "ge-2000-schedules");
+      if (cd.empty()) cd = describe(sc, bound) + vf::fmt(" [slice %u of %u of the schedule tree]", slice + 1, ns);
+      for (auto& f : st.found) {
+        std::string key = f.key;
+        bool engine = key.find("engine") != std::string::npos;
+        if (!engine) {
+          // replay-before-report: the same choice sequence must fail the same way
+          g_env.begin(f.choices);
+          Outcome again = run_once();
+          if (again.key != key) { engine = true; key = "nonreproducible:" + key; }
+        }
+        r.fail(engine ? "engine:" + key : key, [&] { return cd + " :: " + f.failure + vf::fmt(" :: found with %d non-default answers after %llu executions of this slice (%llu failing executions with this key); answers (index/options per choice point) = [ ", f.level, (unsigned long long)f.exec_no, (unsigned long long)f.count) + f.trace + "]"; });
+      }
+    }
   }
-  r.bound = r.thorough() ? "every scenario with <=2..4 run-ahead deviations (per scenario, see samples)" : "every scenario with <=1..3 run-ahead deviations (per scenario, see samples)";
+  r.bound = r.thorough() ? vf::fmt("%llu scenarios, each with every sequence of <=0..4 non-default environment answers (per scenario, see samples)", (unsigned long long)nscen)
+                         : vf::fmt("%llu scenarios, each with every sequence of <=0..3 non-default environment answers (per scenario, see samples)", (unsigned long long)nscen);
 }
 
 VF_MAIN()
